@@ -74,6 +74,6 @@ if __name__ == "__main__":
     jobs = [(f"C{i:02d}", k) for i in range(1, 21) for k in (1, 2)]
     if len(sys.argv) > 1:
         jobs = [(a.split("-")[0], int(a.split("-")[1])) for a in sys.argv[1:]]
-    with ThreadPoolExecutor(6) as ex:
+    with ThreadPoolExecutor(int(os.environ.get("SEED_JOBS", "6"))) as ex:
         for pid, k, msg in ex.map(lambda j: confirm(*j), jobs):
             print(pid, k, msg, flush=True)
